@@ -226,7 +226,7 @@ def check_enum_stepper(case, acc, aut, gm, q, full, impl_vars):
     import omega.steps as steps
     from omega.games import enumeration as enum
     from vlib.props.c12 import _reads_sys_next
-    if case['fam'] in ('A3', 'B6') or _reads_sys_next(gm):
+    if case['fam'] in ('A3', 'B6', 'B7') or _reads_sys_next(gm):
         return      # the enumerator's premises (see C12)
     try:
         g = enum.action_to_steps(aut, 'env', 'impl', qinit=q)
